@@ -4,6 +4,7 @@
 package c01
 
 import (
+	"bytes"
 	"encoding/binary"
 	"encoding/json"
 	"fmt"
@@ -275,6 +276,7 @@ func runCase(c Case) result {
 		case RMsgGetBytes:
 			msg := message.NewMessageFromStream(R)
 			var got []byte
+			var pieces [][]byte
 			if wantLen < 0 { // probing for "no further message"
 				b, err := msg.GetBytes(kit.Bg, 1)
 				return b, err
@@ -288,6 +290,9 @@ func runCase(c Case) result {
 				if err != nil {
 					return got, err
 				}
+				// the pieces are held as returned and only joined once the message is over: what the
+				// application was handed must not change under it while it reads on
+				pieces = append(pieces, b)
 				got = append(got, b...)
 			}
 			// The message must end here: one more byte is io.EOF (also drains
@@ -298,27 +303,30 @@ func runCase(c Case) result {
 				}
 				return got, err
 			}
-			return got, nil
+			return bytes.Join(pieces, nil), nil // a piece that changed after it was handed out shows up in the comparison
 		case RMsgRemaining:
 			msg := message.NewMessageFromStream(R)
 			return msg.GetRemainingBytes(kit.Bg)
 		case RFrames:
 			var got []byte
+			var frames [][]byte // held as returned, joined at the end of the message
 			for {
 				d, end, err := R.ReceiveFrameWithEnd(kit.Bg)
 				if err != nil {
 					return got, err
 				}
-				got = append(got, d...)
+				frames = append(frames, d)
 				if end != 0 {
-					return got, nil
+					return bytes.Join(frames, nil), nil
 				}
 			}
 		}
 		return nil, fmt.Errorf("bad receiver")
 	}
+	held := make([][]byte, 0, len(expected))
 	for i, want := range expected {
 		got, err := recvOne(len(want))
+		held = append(held, got)
 		if err != nil {
 			res.violation = fmt.Sprintf("receiver %s rejected message %d (len %d) that sender %s accepted: %v",
 				recvNames[c.Recv], i, len(want), sendNames[c.Send], err)
@@ -327,6 +335,14 @@ func runCase(c Case) result {
 		if string(got) != string(want) {
 			res.violation = fmt.Sprintf("message %d differs after round trip (%s -> %s): %s",
 				i, sendNames[c.Send], recvNames[c.Recv], kit.FirstDiff(want, got))
+			return res
+		}
+	}
+	// what was handed out earlier is still what was sent once the later messages have been read
+	for i, want := range expected {
+		if string(held[i]) != string(want) {
+			res.violation = fmt.Sprintf("message %d changed after later messages were received (%s -> %s): %s",
+				i, sendNames[c.Send], recvNames[c.Recv], kit.FirstDiff(want, held[i]))
 			return res
 		}
 	}
